@@ -53,11 +53,12 @@ Theorem C08_substring_only_match_refuted :
 Proof. vm_compute. split; reflexivity. Qed.
 Print Assumptions C08_substring_only_match_refuted.
 
-(** Non-vacuity: 66 runes of the current table disagree (among them s, S, i, I); a pattern over agreeing runes
+(** Non-vacuity: runes of the current table disagree (66 with Unicode 15.0.0, among them s, S, i, I); a pattern over agreeing runes
     (é, K, ǆ) with matches of different byte sizes on which both evaluations agree. *)
-Example C08_disagree_set :
-  length disagree_runes = 66%nat /\ firstn 7 disagree_runes = [73; 83; 105; 115; 181; 304; 383]%N /\
-  tolower_fold_agree 107 = true /\ tolower_fold_agree 8490 = true /\ tolower_fold_agree 962 = false.
+Example C08_disagree_set :   (* stated so that it survives a Unicode upgrade of the toolchain; the current table has 66 *)
+  Nat.ltb 0 (length disagree_runes) = true /\
+  forallb (fun c => negb (tolower_fold_agree c)) [73; 83; 105; 115; 181; 304; 383; 962]%N = true /\
+  tolower_fold_agree 107 = true /\ tolower_fold_agree 8490 = true /\ tolower_fold_agree 233 = true.
 Proof. vm_compute. repeat split. Qed.
 Example C08_variants_example :   (* k a σ : 3 x 2 x 3 variants, among them KELVIN-SIGN A final-sigma *)
   length (variants3 107 97 963) = 18%nat /\ existsb (tri_eqb (8490, 65, 962)) (variants3 107 97 963) = true.
